@@ -58,7 +58,7 @@ def required_cells(tier):
             "dotted-directory", "crlf-file", "non-utf8-file", "sloc>=1000",
             "report-selection:-R", "report-selection:--report", "report-selection:default-all", "report-selection:-R-all",
             "exclude:analysis-file-plus-command-line", "hard-link", "cov:-S-through-symlink", "file>1MiB", "analysis-file:no-platform-table",
-            "analysis-file:empty-platform-table"]
+            "analysis-file:empty-platform-table", "directory-name-starting-with-dot", "link-target-through-directory-link-and-dotdot"]
 
 
 def close2(printed, exact):
@@ -87,6 +87,16 @@ def gen_case(rng):
         links["extra/deep/link_" + os.path.basename(t)] = os.path.relpath(t, "extra/deep")
     if rng.random() < 0.3:
         links["extra/outlink.h"] = "@out/far.h"
+    if len(case["files"]) % 2 == 0:
+        # source files below directories whose names start with a dot (.ci, .github): ordinary members for every report
+        extra[".ci/smoke/check.c"] = "int check;\n#ifdef X\nint cx;\n#endif\n// c\n"
+        extra["extra/.hidden.d/probe.h"] = "int probe;\nint probe2;\n"
+    if len(case["files"]) % 3 != 1:
+        # a relative link whose target text goes through a directory link and then `..`: build/u.c names vendor/util.c
+        extra["vendor/util.c"] = "int util1;\nint util2;\n/* c */\nint util3;\n"
+        extra["vendor/pkg/p.h"] = "int p;\n"
+        links["build/cur"] = "../vendor/pkg"
+        links["build/u.c"] = "cur/../util.c"
     case["extra"] = extra
     case["links"] = links
     # a second directory entry (hard link) for an unused file: two names, two files of the code base
@@ -285,6 +295,10 @@ def check_case(ctx, case, base, cls, do_clustering=False):
             cells.add("asm-file")
         if any("." in os.path.dirname(os.path.relpath(fn, realroot)) for fn in fsm):
             cells.add("dotted-directory")
+        if any(part.startswith(".") for fn in fsm for part in os.path.relpath(fn, realroot).split("/")[:-1]):
+            cells.add("directory-name-starting-with-dot")
+        if "build/u.c" in case["links"] and any(os.path.relpath(fn, realroot) == "build/u.c" and v[0] for fn, v in fsm.items()):
+            cells.add("link-target-through-directory-link-and-dotdot")
         if case.get("hard"):
             cells.add("hard-link")
         if "extra/huge_table.h" in case["extra"]:
